@@ -47,7 +47,9 @@ def main():
             ('MC_Tokens', dict(MaxLen=2, Emit=False, Slice=0, Of=1), ['InvSpecTotal', 'InvRangeTextTotal']),
         ]
         for i, (mod, consts, invs) in enumerate(cov_models):
-            r = V.run_model(wd, f'cov{i}_{mod}', mod, consts, invs, workers=8, coverage=True)
+            # action coverage only: no invariant is evaluated (TLC's coverage bookkeeping on the deeply recursive
+            # operators of the invariants is slow and memory hungry, and says nothing about the actions)
+            r = V.run_model(wd, f'cov{i}_{mod}', mod, consts, [], workers=8, coverage=True, timeout=600)
             if r['coverage_zero']:
                 raise V.ToolError(f'vacuity: actions never taken in {mod} {consts}: {r["coverage_zero"]}')
             print(f'[setup] coverage {mod} {consts.get("Mode", "")}: {r["distinct"]} states, every action taken')
